@@ -1,27 +1,26 @@
-(* F_C18_load — machine-checked counterexamples to the full-strength C18 statements about load()
-   (known findings C18 load/...): lowest_loss is not restored, and BundleSolver1D.load drops
-   eq_param_index / loss_fn and wraps the equations a second time.
-   Never gates a check: if the source is repaired this file stops compiling. *)
+(* F_C18_load — HISTORICAL: machine-checked counterexamples to the full-strength C18 statements
+   about load() for the tree BEFORE fix commits 02ac05f (lowest_loss) and 446840b
+   (BundleSolver1D.load; known findings F4a-c, status fixed).  Uses the written-out facts of the
+   old tree from F_C18_save.v; nothing depends on the generated Gen_C18.v.  Never gates a check. *)
 From Coq Require Import String.
 From Coq Require Import List ZArith QArith Bool.
 From ND.model Require Import Persist.
-From ND.gen Require Import Gen_C18.
-From ND.proofs Require Import C18_persist.
+From ND.findings Require Import F_C18_save.
 Import ListNotations.
 Close Scope Q_scope.
 Local Open Scope nat_scope.
 
-Example lowest_loss_is_neither_saved_nor_restored :
-  saved facts "lowest_loss" "self.lowest_loss" = false /\ restored facts "lowest_loss" "file:lowest_loss" = false.
+Example old_lowest_loss_neither_saved_nor_restored :
+  saved old_facts "lowest_loss" "self.lowest_loss" = false /\ restored old_facts "lowest_loss" "file:lowest_loss" = false.
 Proof. split; reflexivity. Qed.
 
 (* one epoch with validation loss 1 and best nets [7]; after load one epoch with validation loss 5
-   overwrites the best nets although 1 is still in the history *)
+   overwrote the best nets although 1 was still in the history *)
 Definition s1 : state := mkState K1D [7%Z] 5%Z [(1#1)%Q] [(1#1)%Q] (Some (1#1)%Q) (Some [7%Z]) [] 0 0 [].
 Definition worse : epoch_data := mkEpoch (5#1)%Q (5#1)%Q [8%Z] 6%Z.
 
-Theorem C18_resume_best_refuted :
-  exists s f l es, tracks s /\ snd (save facts s true) = Some f /\ load facts f = Some l
+Theorem old_resume_best_refuted :
+  exists s f l es, tracks s /\ snd (save old_facts s true) = Some f /\ load old_facts f = Some l
                    /\ ~ tracks (fit l es) /\ best (fit l es) = Some [8%Z] /\ best s = Some [7%Z].
 Proof.
   exists s1. eexists. eexists. exists [worse]. split; [|split; [reflexivity|split; [vm_compute; reflexivity|]]].
@@ -30,22 +29,15 @@ Proof.
     unfold tracks, tracks_from. vm_compute. intros [_ H]. inversion H as [|? ? H1 _]. apply H1. reflexivity.
 Qed.
 
-Example bundle_load_passes_neither_eq_param_index_nor_loss_fn :
-  match ctor_args facts KBundle with
-  | Some args => has_arg args "eq_param_index" = false /\ has_arg args "loss_fn" = false
-  | None => False
-  end.
-Proof. vm_compute. split; reflexivity. Qed.
-
-(* a bundle solver with one bundle parameter routed into the equation (eq_param_index = (0,)) and a
-   custom loss: trainable before; after load the inner wrapper indexes a parameter the outer
-   one no longer passes down (IndexError on the next fit), and the loss is the default again *)
+(* a bundle solver routing its bundle parameter into the equation, with a custom loss: trainable
+   before; after the old load the inner wrapper indexed a parameter the outer one no longer passed
+   down (IndexError on the next fit) and the loss was the default again *)
 Definition sb : state := mkState KBundle [7%Z] 5%Z [] [] None None [] 2 1 [[0]].
 
-Theorem C18_load_bundle_refuted :
-  exists s f l, kind s = KBundle /\ trainable s = true /\ snd (save facts s true) = Some f /\ load facts f = Some l
-                /\ trainable l = false /\ loss_id l <> loss_id s.
+Theorem old_load_bundle_refuted :
+  exists s f l, kind s = KBundle /\ trainable s = true /\ snd (save old_facts s true) = Some f /\ load old_facts f = Some l
+                /\ trainable l = false /\ loss_id l <> loss_id s /\ select (eqs l) [10] = None /\ select (eqs s) [10] = Some [10].
 Proof.
   exists sb. eexists. eexists. split; [reflexivity|]. split; [reflexivity|]. split; [reflexivity|].
-  split; [vm_compute; reflexivity|]. split; [reflexivity | vm_compute; discriminate].
+  split; [vm_compute; reflexivity|]. split; [reflexivity|]. split; [vm_compute; discriminate|]. split; reflexivity.
 Qed.
